@@ -320,7 +320,9 @@ class eval_abs(object):
 
 
     def eval_op_plus(self, args, op_size, cast_int):
-        ret_value = args[0] + args[1]
+        ret_value = args[0]
+        for a in args[1:]:
+            ret_value = ret_value + a
         return ret_value
 
     def eval_op_minus(self, args, op_size, cast_int):
@@ -333,7 +335,9 @@ class eval_abs(object):
         return ret_value
 
     def eval_op_mult(self, args, op_size, cast_int):
-        ret_value = (args[0] * args[1])
+        ret_value = args[0]
+        for a in args[1:]:
+            ret_value = ret_value * a
         return ret_value
 
     def eval_op_div(self, args, op_size, cast_int):
@@ -410,15 +414,21 @@ class eval_abs(object):
         return ret_value
 
     def eval_op_and(self, args, op_size, cast_int):
-        ret_value = (args[0] & args[1])
+        ret_value = args[0]
+        for a in args[1:]:
+            ret_value = ret_value & a
         return ret_value
 
     def eval_op_or(self, args, op_size, cast_int):
-        ret_value = (args[0] | args[1])
+        ret_value = args[0]
+        for a in args[1:]:
+            ret_value = ret_value | a
         return ret_value
 
     def eval_op_xor(self, args, op_size, cast_int):
-        ret_value = (args[0] ^ args[1])
+        ret_value = args[0]
+        for a in args[1:]:
+            ret_value = ret_value ^ a
         return ret_value
 
     def eval_op_not(self, args, op_size, cast_int):
